@@ -24,7 +24,12 @@ RULE = ("classes of the documented recovery table (missing value, unexpected val
         "bare value, duplicate / invalid block and frame codes, disallowed / unterminated / nested / unexpected-terminator "
         "save frames) x every position of 8 hand-written and 40 random hosts, CIF 2.0 and CIF 1.1; plus every host without a "
         "defect; non-trivial = a defect was planted; oracle (implementation only): first callback = documented code at a line "
-        "in [defect, following token], content = documented recovery applied to the host, defect-free host = no callback")
+        "in [defect, following token], content = documented recovery applied to the host, defect-free host = no callback.  "
+        "Group gW: hosts whose save frames NEST (max_frame_depth -1; the container-level classes planted at every depth); PAIRS of "
+        "single-report defects in different elements of one container (note P: exactly the two codes, in document order, each on "
+        "its lines, content = both recoveries) and the pair that meets in one loop (dup header name + short last packet, note M); "
+        "SEVERAL defective places in one token / comment (note M: every place reported once, in order); the ABORT-ON-ERROR handler "
+        "(policy d, note DIE: return value = code, exactly one callback, content = what stands in front of the defect)")
 
 S = lambda t, p="bare": ("str", t, p)      # noqa: E731
 # unquoted words that begin like a block / frame header without being one (the scanner tracks a keyword in progress)
@@ -43,6 +48,22 @@ HOSTS2 = [
     [("only", [("item", "_single", S("v"))])],
     [("a", [("item", "_x", S(";semi")), ("item", "_u", S("tq\n'' x", "tdq")), ("loop", ["_a", "_b"], [[S("?", "sq"), ("unk",)], [S(".", "dq"), ("na",)]])])],
     [("a", []), ("b", [("item", "_x", S("1"))])],
+]
+# save frames inside save frames (parsed with max_frame_depth = -1)
+NESTED2 = [
+    [("a", [("item", "_x", S("1")),
+            ("frame", "f", [("item", "_p", S("q", "dq")),
+                            ("frame", "g", [("item", "_m", S("1")), ("loop", ["_n1", "_n2"], [[S("1"), S("2")], [S("3"), S("4")]]), ("item", "_o", ("unk",))]),
+                            ("item", "_r", ("list", [S("1"), S("2")]))]),
+            ("item", "_y", ("na",))]),
+     ("b", [("item", "_x", S("2"))])],
+    [("a", [("frame", "f", [("frame", "g", [("frame", "h", [("item", "_deep", S("v")), ("item", "_t", ("table", [("k", "sq", S("1"))]))]),
+                                            ("item", "_g1", S("1"))]),
+                            ("frame", "g2", [("loop", ["_a", "_b"], [[S("1"), S("2")]])])])])],
+]
+NESTED1 = [
+    [("a", [("frame", "f", [("item", "_p", S("q", "dq")), ("frame", "g", [("item", "_m", S("1")), ("item", "_o", S("it's", "sq"))])]),
+            ("item", "_y", S("2"))])],
 ]
 HOSTS1 = [
     [("a", [("item", "_x", S("1")), ("item", "_y", S("two words", "sq")), ("item", "_z", S("line1\nline2", "text"))])],
@@ -130,6 +151,19 @@ def edit_value(v, path, fn):
 # ---------------------------------------------------------------------------------------------------------------------
 # the classes: each generator yields (label, planted document, documented result document or content, code, options, alt)
 
+def truncate_before(doc, path, k):
+    """the document as far as it has been stored when the parser stands in front of element `k` of the container at `path`:
+    the blocks before, the enclosing containers with the elements before the one that is open, the first `k` elements"""
+    def cut(elems, p):
+        if not p:
+            return list(elems[:k])
+        e = elems[p[0]]
+        return list(elems[:p[0]]) + [("frame", e[1], cut(e[2], p[1:]))]
+    d = copy.deepcopy(list(doc[:path[0] + 1]))
+    d[-1] = (d[-1][0], cut(d[-1][1], path[1:]))
+    return d
+
+
 def plant_container_level(doc, dia, r):
     for path in containers(doc):
         elems = get_elems(doc, path)
@@ -140,20 +174,21 @@ def plant_container_level(doc, dia, r):
             prev = elems[k - 1] if k > 0 else None
             after_loop = prev is not None and prev[0] == "loop"
             tag = "%s/%s" % (where, "first" if k == 0 else ("last" if k == len(elems) else "mid"))
+            DIE = {"die": truncate_before(doc, path, k)}     # abort-on-error handler: nothing behind the defect is stored
             # unexpected value: ignore it (a value behind a loop would be read as part of the loop body instead)
             if not after_loop:
                 strays = ["stray", "'q s'", "\n;tx\n;"] + (["[1 2]", "{'k':1}", '"""a\nb"""'] if dia == 2 else [])
                 for st in strays:
-                    yield ("unexpected_value/" + tag, with_elems(doc, path, elems[:k] + [("raw", st, True)] + elems[k:]), doc, 134, {}, None)
+                    yield ("unexpected_value/" + tag, with_elems(doc, path, elems[:k] + [("raw", st, True)] + elems[k:]), doc, 134, dict(DIE), None)
                 if dia == 2:
                     for st in ("]", "}"):
-                        yield ("unexpected_delim/" + tag, with_elems(doc, path, elems[:k] + [("raw", st, True)] + elems[k:]), doc, 135, {}, None)
+                        yield ("unexpected_delim/" + tag, with_elems(doc, path, elems[:k] + [("raw", st, True)] + elems[k:]), doc, 135, dict(DIE), None)
                 if dia == 2:
                     # a quoted string / text field directly followed by a colon outside a table: missing whitespace is assumed
                     for st in ("'k':1", "\n;tk\n;:1", '"""k""":'):
                         yield ("missing_space_key/" + tag, with_elems(doc, path, elems[:k] + [("raw", st, True)] + elems[k:]), doc, 105, {}, None)
                 if not in_frame:
-                    yield ("unexpected_term/" + tag, with_elems(doc, path, elems[:k] + [("raw", "save_", True)] + elems[k:]), doc, 124, {}, None)
+                    yield ("unexpected_term/" + tag, with_elems(doc, path, elems[:k] + [("raw", "save_", True)] + elems[k:]), doc, 124, dict(DIE), None)
             # reserved words are dropped wherever they stand (behind a loop they are not part of a packet either)
             for w in ("stop_", "GLOBAL_", "data_"):
                 if w == "data_" and (in_frame or k < len(elems)):
@@ -166,13 +201,13 @@ def plant_container_level(doc, dia, r):
                     dupname = variant(r.choice(earlier), r)
                     vals = [S("dup"), S("d d", "sq")] + ([("list", [S("1")])] if dia == 2 else [])
                     for v in vals:
-                        yield ("dup_name/" + tag, with_elems(doc, path, elems[:k] + [("item", ("mark", dupname), v)] + elems[k:]), doc, 41, {}, None)
+                        yield ("dup_name/" + tag, with_elems(doc, path, elems[:k] + [("item", ("mark", dupname), v)] + elems[k:]), doc, 41, dict(DIE), None)
             # invalid data name: reported, parsed and dropped like a duplicate
-            yield ("invalid_name/" + tag, with_elems(doc, path, elems[:k] + [("item", ("mark", "_"), S("v"))] + elems[k:]), doc, 42, {}, None)
+            yield ("invalid_name/" + tag, with_elems(doc, path, elems[:k] + [("item", ("mark", "_"), S("v"))] + elems[k:]), doc, 42, dict(DIE), None)
             # empty loop header: `loop_` not followed by a data name — ignore it
             nxt = elems[k] if k < len(elems) else None
             if nxt is None or nxt[0] in ("frame", "loop"):
-                yield ("null_loop/" + tag, with_elems(doc, path, elems[:k] + [("raw", "loop_", True)] + elems[k:]), doc, 37, {}, None)
+                yield ("null_loop/" + tag, with_elems(doc, path, elems[:k] + [("raw", "loop_", True)] + elems[k:]), doc, 37, dict(DIE), None)
                 # empty loop: header without values — accepted (the data model has no such loop: it may be pruned)
                 fresh = "_fresh.%d" % k
                 planted = with_elems(doc, path, elems[:k] + [("loop", [fresh, ("mark", "_fresh.b")], [])] + elems[k:])
@@ -181,9 +216,14 @@ def plant_container_level(doc, dia, r):
         for k, e in enumerate(elems):
             tag = "%s/%s" % (where, "first" if k == 0 else ("last" if k == len(elems) - 1 else "mid"))
             if e[0] == "item":
+                # a loop whose ONLY header name repeats this item (any spelling): the name is dropped, the loop is left without
+                # names, its values are dropped, and the parse goes on behind it
+                yield ("dup_header_all/" + tag, with_elems(doc, path, elems[:k + 1] + [("loop", [("mark", variant(e[1], r))], [[S("10")], [S("20")], [S("30")]])]
+                                                            + elems[k + 1:]), doc, 41, {}, None)
                 # missing value: a synthetic unknown value
                 yield ("missing_value/" + tag, with_elems(doc, path, elems[:k] + [("noval", e[1])] + elems[k + 1:]),
-                       with_elems(doc, path, elems[:k] + [("item", e[1], ("unk",))] + elems[k + 1:]), 133, {}, None)
+                       with_elems(doc, path, elems[:k] + [("item", e[1], ("unk",))] + elems[k + 1:]), 133,
+                       {"die": truncate_before(doc, path, k)}, None)
                 # missing whitespace after a quoted string: assume it (the rest is then an unexpected value: ignored)
                 if dia == 2:            # (in CIF 1.1 a quote that is not followed by whitespace is part of the value)
                     yield ("missing_space/" + tag, with_elems(doc, path, elems[:k] + [("item", e[1], ("rawv", "'ab'cd"))] + elems[k + 1:]),
@@ -209,6 +249,29 @@ def plant_container_level(doc, dia, r):
                 if dia == 2:            # (in CIF 1.1 every unit above U+007E is first of all a disallowed character)
                     yield ("invalid_char/" + tag, with_elems(doc, path, elems[:k] + [("item", e[1], ("rawv", "'a\ud800b'"))] + elems[k + 1:]),
                            with_elems(doc, path, elems[:k] + [("item", e[1], S("a�b", "sq"))] + elems[k + 1:]), 102, {}, None)
+                if dia == 2:
+                    # an unpaired lead surrogate inside a DATA NAME: replaced (the item is stored under the repaired name)
+                    yield ("invalid_char_name/" + tag, with_elems(doc, path, elems[:k] + [("item", ("mark", "_zq\ud800" + "w%d" % k), S("1"))] + elems[k:]),
+                           with_elems(doc, path, elems[:k] + [("item", "_zq\ufffd" + "w%d" % k, S("1"))] + elems[k:]), 102, {}, None)
+                    # SEVERAL defective places in one token: each reported, in order, with its own code
+                    yield ("multi_in_token/" + tag, with_elems(doc, path, elems[:k] + [("item", e[1], ("rawv", "'a\x01b\udc00c\ud800d'"))] + elems[k + 1:]),
+                           with_elems(doc, path, elems[:k] + [("item", e[1], S("a\x01b\ufffdc\ufffdd", "sq"))] + elems[k + 1:]), 104,
+                           {"codes": [104, 102, 102]}, None)
+                if dia == 2:
+                    # … in a text field, on two of its lines; in a whitespace-delimited value (lead surrogate in the middle)
+                    yield ("multi_in_text/" + tag, with_elems(doc, path, elems[:k] + [("item", e[1], ("rawv", "\n;a\x01b\nc\udc00d\ud800e\n;"))] + elems[k + 1:]),
+                           with_elems(doc, path, elems[:k] + [("item", e[1], S("a\x01b\nc\ufffdd\ufffde", "text"))] + elems[k + 1:]), 104,
+                           {"codes": [104, 102, 102]}, None)
+                    yield ("multi_in_bare/" + tag, with_elems(doc, path, elems[:k] + [("item", e[1], ("rawv", "ab\ud800cd\x01e"))] + elems[k + 1:]),
+                           with_elems(doc, path, elems[:k] + [("item", e[1], S("ab\ufffdcd\x01e"))] + elems[k + 1:]), 102,
+                           {"codes": [102, 104]}, None)
+                # a defective unit inside a COMMENT: reported, the comment is skipped as usual
+                cbad = "\x01" if dia == 2 else "\x7f"
+                yield ("defect_in_comment/" + tag, with_elems(doc, path, elems[:k] + [("raw", "#c" + cbad + "d", True)] + elems[k:]), doc, 104,
+                       {"codes": [104] if dia == 2 else [104, 104], "lines_only": True}, None)
+                if dia == 2:
+                    yield ("defects_in_comment/" + tag, with_elems(doc, path, elems[:k] + [("raw", "#c\x01d\udc00e\ud800f", True)] + elems[k:]), doc, 104,
+                           {"codes": [104, 102, 102], "lines_only": True}, None)
                 # over-length line: accepted as it is (2049 characters)
                 long_ = "x" * (2049 - 1)
                 yield ("overlength/" + tag, with_elems(doc, path, elems[:k] + [("item", e[1], ("rawv", "\n#" + long_ + "\nv"))] + elems[k + 1:]),
@@ -217,7 +280,7 @@ def plant_container_level(doc, dia, r):
                     # unterminated list / table: assume the delimiter where its absence is noticed
                     opened = (e[2][0], e[2][1], False)
                     yield ("missing_delim/" + tag, with_elems(doc, path, elems[:k] + [("item", e[1], ("mark", opened))] + elems[k + 1:]), doc, 136,
-                           {"hi_after_value": True}, None)
+                           {"hi_after_value": True, "die": truncate_before(doc, path, k)}, None)   # reported while the value is parsed
             if e[0] == "loop":
                 names, packets = e[1], e[2]
                 scalars = [n for n in names_of(elems[:k]) if n not in names]
@@ -227,7 +290,8 @@ def plant_container_level(doc, dia, r):
                             ((("dup_header_scalar", 41, variant(scalars[0], r)),) if scalars else ()):
                         hdr = names[:pos] + [("mark", newname)] + names[pos:]
                         pk = [p[:pos] + [S("dropped", "sq")] + p[pos:] for p in packets]
-                        yield ("%s/%s/col%d" % (label, tag, pos), with_elems(doc, path, elems[:k] + [("loop", hdr, pk)] + elems[k + 1:]), doc, code, {}, None)
+                        yield ("%s/%s/col%d" % (label, tag, pos), with_elems(doc, path, elems[:k] + [("loop", hdr, pk)] + elems[k + 1:]), doc, code,
+                               {"die": truncate_before(doc, path, k)}, None)     # the report is made while the header is read: no loop yet
                 # truncated final packet: filled out with unknown values
                 if len(names) > 1 and packets:
                     for keep in range(1, len(names)):
@@ -236,6 +300,23 @@ def plant_container_level(doc, dia, r):
                         result = packets[:-1] + [last[:keep] + [("unk",)] * (len(names) - keep)]
                         yield ("partial_packet/%s/keep%d" % (tag, keep), with_elems(doc, path, elems[:k] + [("loop", names, planted)] + elems[k + 1:]),
                                with_elems(doc, path, elems[:k] + [("loop", names, result)] + elems[k + 1:]), 53, {"mark_last": True}, None)
+                # a repeated header name AND a truncated final packet in the same loop (parse_loop_packets counts columns with the
+                # full header, drops the values of the dropped column and pads the retained columns): two reports, 41 then 53
+                if packets and len(names) >= 1:
+                    for pos in range(1, len(names) + 1):
+                        width = len(names) + 1
+                        hdr = names[:pos] + [("mark", variant(names[pos - 1], r))] + names[pos:]
+                        full = [p[:pos] + [S("dropped", "sq")] + p[pos:] for p in packets]
+                        for keep in sorted(set([1, pos, min(pos + 1, width - 1), width - 1])):
+                            if not (1 <= keep < width):
+                                continue
+                            planted = full[:-1] + [full[-1][:keep] + [("skip",)] * (width - keep)]
+                            padded = full[-1][:keep] + [("unk",)] * (width - keep)
+                            result = packets[:-1] + [padded[:pos] + padded[pos + 1:]]
+                            yield ("dup_header_partial/%s/col%d/keep%d" % (tag, pos, keep),
+                                   with_elems(doc, path, elems[:k] + [("loop", hdr, planted)] + elems[k + 1:]),
+                                   with_elems(doc, path, elems[:k] + [("loop", names, result)] + elems[k + 1:]), 41,
+                                   {"codes": [41, 53], "span_all": True}, None)
                 # stray closing delimiter in the body: ignored
                 if dia == 2 and packets:
                     for st in ("]", "}"):
@@ -405,6 +486,111 @@ def plant_eof(doc, dia, r):
 
 
 # ---------------------------------------------------------------------------------------------------------------------
+# two defects in different elements of one container (theorem C12_two_defects / C12_chars_two_defects)
+
+def element_edits(elems, dia, r):
+    """single-report defects that touch ONE element slot of a container: (slot, label, code, k, n_removed, planted, repaired, kind).
+    slot 2k = insertion in front of element k, slot 2k+1 = element k itself"""
+    out = []
+    for k in range(len(elems) + 1):
+        prev = elems[k - 1] if k > 0 else None
+        nxt = elems[k] if k < len(elems) else None
+        after_loop = prev is not None and prev[0] == "loop"
+        if not after_loop:
+            out.append((2 * k, "unexpected_value", 134, k, 0, [("raw", "stray", True)], [], "value"))
+            if dia == 2:
+                out.append((2 * k, "unexpected_delim", 135, k, 0, [("raw", "]", True)], [], "value"))
+        out.append((2 * k, "invalid_name", 42, k, 0, [("item", ("mark", "_"), S("v"))], [], "item"))
+        earlier = names_of(elems[:k])
+        if earlier:
+            out.append((2 * k, "dup_name", 41, k, 0, [("item", ("mark", variant(r.choice(earlier), r)), S("dup"))], [], "item"))
+        if nxt is None or nxt[0] in ("frame", "loop"):
+            out.append((2 * k, "null_loop", 37, k, 0, [("raw", "loop_", True)], [], "loopkw"))
+    for k, e in enumerate(elems):
+        if e[0] == "item":
+            out.append((2 * k + 1, "missing_value", 133, k, 1, [("noval", e[1])], [("item", e[1], ("unk",))], "noval"))
+        if e[0] == "loop":
+            names, packets = e[1], e[2]
+            if len(names) > 1 and packets:
+                keep = 1 + (k % (len(names) - 1))
+                last = packets[-1]
+                out.append((2 * k + 1, "partial_packet", 53, k, 1,
+                            [("loop", names, packets[:-1] + [last[:keep] + [("skip",)] * (len(names) - keep)])],
+                            [("loop", names, packets[:-1] + [last[:keep] + [("unk",)] * (len(names) - keep)])], "loop"))
+            pos = 1 + (k % len(names))
+            hdr = names[:pos] + [("mark", variant(names[pos - 1], r))] + names[pos:]
+            pk = [p[:pos] + [S("dropped", "sq")] + p[pos:] for p in packets]
+            out.append((2 * k + 1, "dup_header", 41, k, 1, [("loop", hdr, pk)], [e], "loop"))
+    return out
+
+
+def compatible(a, b, elems):
+    """`a` in front of `b`, different elements, and the first defect does not change what the second one is"""
+    (sa, la, _ca, ka, _na, _pa, _ra, kinda), (sb, lb, _cb, kb, _nb, _pb, _rb, kindb) = a, b
+    if sa >= sb:
+        return False
+    adjacent = (sb == sa + 1) or (sa % 2 == 0 and sb % 2 == 0 and ka == kb)
+    if la == "null_loop" and adjacent:
+        return False                      # `loop_` followed by a planted data name would be a loop header
+    if kinda == "noval" and adjacent and kindb == "value":
+        return False                      # the stray value would be the value of the name
+    if kinda == "loop" and adjacent and kindb == "value":
+        return False                      # … or a value of the loop body
+    return True
+
+
+def plant_pairs(doc, dia, r, limit):
+    cases = []
+    for path in containers(doc):
+        elems = get_elems(doc, path)
+        eds = element_edits(elems, dia, r)
+        where = "frame%d" % (len(path) - 1) if len(path) > 1 else "block"
+        for a in eds:
+            for b in eds:
+                if not compatible(a, b, elems):
+                    continue
+                # apply the later edit first (indices of the earlier one stay valid)
+                planted, repaired = list(elems), list(elems)
+                for (_s, _l, _c, k, n, pl, rp, _kind) in (b, a):
+                    planted = planted[:k] + pl + planted[k + n:]
+                    repaired = repaired[:k] + rp + repaired[k + n:]
+                cases.append(("pair/%s+%s/%s" % (a[1], b[1], where), with_elems(doc, path, planted), with_elems(doc, path, repaired),
+                              (a[2], b[2])))
+    r.shuffle(cases)
+    return cases[:limit]
+
+
+def pair_request(label, planted, result, codes, dia, r, mfd):
+    text, spans, marks = pd.render_marked(planted, r, dia, "lines", "\n")
+    if pd.max_line_chars(text) > 2048:
+        return None
+    last_line = 1 + text.count("\n")
+    bounds = []
+    if len(marks) == 2:
+        for mi in marks:
+            nxt = mi + 1
+            bounds.append((spans[mi][3], spans[nxt][4] if nxt < len(spans) else last_line))
+    else:
+        bounds = [(1, last_line), (1, last_line)]
+    note = ["P", label, str(codes[0]), str(codes[1])] + ["%d-%d" % b for b in bounds] + ["X"] + expected_dump(result, dia).split(" ")[1:]
+    return make_request("parse", text, dia=dia, mfd=mfd, note=note)
+
+
+def die_request(label, planted, truncated, code, opts, dia, r, mfd, style="lines"):
+    """the same planted document under the abort-on-error handler (cif_parse_error_die): the parse returns the class's code,
+    the callback has been invoked exactly once, and the CIF holds what stands IN FRONT of the defect (nothing behind it)"""
+    text, spans, marks = pd.render_marked(planted, r, dia, style, "\n")
+    if pd.max_line_chars(text) > 2048 or not marks:
+        return None
+    mi = marks[0]
+    last_line = 1 + text.count("\n")
+    lo = spans[mi][3]
+    hi = spans[mi + 1][4] if mi + 1 < len(spans) and not opts.get("hi_after_value") else last_line
+    note = ["DIE", label, str(code), str(lo), str(hi), "X"] + expected_dump(truncated, dia).split(" ")[1:]
+    return make_request("parse", text, dia=dia, mfd=opts.get("mfd", mfd), policy="d", note=note)
+
+
+# ---------------------------------------------------------------------------------------------------------------------
 # line length: exactly which lines are reported
 
 def boundary_cases(dia):
@@ -464,7 +650,7 @@ def expected_dump(result, dia):
     return pd.dump_cif(pd.denote([(b[0], b[1]) for b in result], dia))
 
 
-def case_request(label, planted, result, code, opts, alt, dia, r, style="lines"):
+def case_request(label, planted, result, code, opts, alt, dia, r, style="lines", mfd=1):
     trail = "" if opts.get("no_trail") else "\n"
     text, spans, marks = pd.render_marked(planted, r, dia, style, trail)
     if pd.max_line_chars(text) > 2048 and not label.startswith(("overlength", "invalid_block", "invalid_frame")):
@@ -500,16 +686,22 @@ def case_request(label, planted, result, code, opts, alt, dia, r, style="lines")
         hi = spans[nxt][4] if nxt < len(spans) and not opts.get("hi_eof") else last_line
         if opts.get("mark_after"):
             lo = spans[mi][3]
+    if opts.get("span_all"):
+        lo, hi = 1, last_line
+    if opts.get("codes"):
+        # every report of the planted token, in order (each place of a token with several defects is reported once)
+        note = ["M", label, ",".join(str(c) for c in opts["codes"]), str(lo), str(hi), "X"] + expected_dump(result, dia).split(" ")[1:]
+        return make_request("parse", text, dia=dia, mfd=opts.get("mfd", mfd), note=note)
     note = ["D", label, str(code), str(lo), str(hi), "X"] + expected_dump(result, dia).split(" ")[1:]
     if alt is not None:
         note += ["ALT"] + expected_dump(alt, dia).split(" ")[1:]
-    return make_request("parse", text, dia=dia, mfd=opts.get("mfd", 1), note=note)
+    return make_request("parse", text, dia=dia, mfd=opts.get("mfd", mfd), note=note)
 
 
-def host_request(doc, dia, r, style):
+def host_request(doc, dia, r, style, mfd=1):
     text, _ = pd.render(doc, r, dia, style)
     note = ["X"] + pd.dump_cif(pd.denote(doc, dia)).split(" ")[1:]
-    return make_request("parse", text, dia=dia, note=note)
+    return make_request("parse", text, dia=dia, mfd=mfd, note=note)
 
 
 def oracle(req, impl):
@@ -533,6 +725,12 @@ def oracle(req, impl):
         if o["cif"].rstrip() != expected.rstrip():
             return "%s: content differs from what the document denotes" % label
         return pd.post_ok(o)
+    if d["note"] and d["note"][0] == "P":
+        return oracle_pair(d, impl)
+    if d["note"] and d["note"][0] == "DIE":
+        return oracle_die(d, impl)
+    if d["note"] and d["note"][0] == "M":
+        return oracle_multi(d, impl)
     if "D" not in d["note"]:
         return pd.oracle(req, impl)
     o = split_impl(impl)
@@ -563,16 +761,93 @@ def oracle(req, impl):
     return pd.post_ok(o)
 
 
+def oracle_pair(d, impl):
+    """two defects in different elements of one container: each is reported exactly once with its class's code, in document
+    order, nothing else is reported, and the content is that of BOTH documented recoveries"""
+    o = split_impl(impl)
+    if o is None:
+        return None if impl.startswith(("SAN:", "CRASH:", "TIMEOUT")) else "unreadable observation: " + impl[:80]
+    n = d["note"]
+    label, c1, c2 = n[1], int(n[2]), int(n[3])
+    b1, b2 = [tuple(int(x) for x in t.split("-")) for t in n[4:6]]
+    expected = " " + " ".join(n[n.index("X") + 1:])
+    codes = [c for c, _ in o["log"]]
+    if codes != [c1, c2]:
+        return "%s: callbacks %s, the two planted defects have the documented codes [%d, %d]" % (label, codes, c1, c2)
+    for (c, l), (lo, hi) in zip(o["log"], (b1, b2)):
+        if not (lo <= l <= hi):
+            return "%s: callback %d at line %d, its defect and the following token span lines %d-%d" % (label, c, l, lo, hi)
+    if o["rc"] != 0:
+        return "%s: every error was accepted but cif_parse returned %d" % (label, o["rc"])
+    if o["ptr"] != "ok":
+        return "callback text pointer outside the scan buffer"
+    if pd.store_units(o["cif"].rstrip()) != pd.store_units(expected.rstrip()):
+        return "%s: content after recovery is not that of both documented recovery actions" % label
+    return pd.post_ok(o)
+
+
+def oracle_multi(d, impl):
+    """one token with several defective places (or a comment with some): every place is reported once, with its class's code, in
+    order of occurrence, on the lines of the token; nothing else is reported; the content is that of all documented recoveries"""
+    o = split_impl(impl)
+    if o is None:
+        return None if impl.startswith(("SAN:", "CRASH:", "TIMEOUT")) else "unreadable observation: " + impl[:80]
+    n = d["note"]
+    label, want, lo, hi = n[1], [int(x) for x in n[2].split(",")], int(n[3]), int(n[4])
+    expected = " " + " ".join(n[n.index("X") + 1:])
+    codes = [c for c, _ in o["log"]]
+    if codes != want:
+        return "%s: callbacks %s, the defective places of the token have the documented codes %s" % (label, codes, want)
+    for c, l in o["log"]:
+        if not (lo <= l <= hi):
+            return "%s: callback %d at line %d, the token spans lines %d-%d" % (label, c, l, lo, hi)
+    if o["rc"] != 0:
+        return "%s: every error was accepted but cif_parse returned %d" % (label, o["rc"])
+    if o["ptr"] != "ok":
+        return "callback text pointer outside the scan buffer"
+    if pd.store_units(o["cif"].rstrip()) != pd.store_units(expected.rstrip()):
+        return "%s: content after recovery is not what the documented recovery actions prescribe" % label
+    return pd.post_ok(o)
+
+
+def oracle_die(d, impl):
+    """abort-on-error handler: the parse returns the code of the class, exactly one callback was made (with that code, on a line
+    of the defect), and what the CIF holds is what stands in front of the defect — nothing behind it has been stored"""
+    o = split_impl(impl)
+    if o is None:
+        return None if impl.startswith(("SAN:", "CRASH:", "TIMEOUT")) else "unreadable observation: " + impl[:80]
+    n = d["note"]
+    label, code, lo, hi = n[1], int(n[2]), int(n[3]), int(n[4])
+    expected = " " + " ".join(n[n.index("X") + 1:])
+    if o["rc"] != code:
+        return "%s: the handler answered %d to the first error but cif_parse returned %d" % (label, code, o["rc"])
+    if [c for c, _ in o["log"]] != [code]:
+        return "%s: callbacks %s under the abort-on-error handler, expected exactly [%d]" % (label, [c for c, _ in o["log"]], code)
+    if not (lo <= o["log"][0][1] <= hi):
+        return "%s: callback at line %d, the defect and the following token span lines %d-%d" % (label, o["log"][0][1], lo, hi)
+    if o["aa"] not in (None, "?") and int(o["aa"]) != code:
+        return "%s: the accept-all parse reports %s first" % (label, o["aa"])
+    if pd.store_units(o["cif"].rstrip()) != pd.store_units(expected.rstrip()):
+        return "%s: after the aborted parse the CIF does not hold exactly what stands in front of the defect" % label
+    return pd.post_ok(o, aborted=True)
+
+
 def nontrivial(req, impl):
-    return " D " in req or " | L " in req
+    return " D " in req or " | L " in req or " | P " in req or " | DIE " in req or " | M " in req
 
 
 def classify(req, impl):
     d = split_request(req)
     if d["note"] and d["note"][0] == "L":
         return "linelen"
-    if "D" in d["note"]:
+    if d["note"] and d["note"][0] == "P":
+        return "pair"
+    if d["note"] and d["note"][0] == "DIE":
+        return "die:" + d["note"][1].split("/")[0]
+    if d["note"] and d["note"][0] == "M":
         return d["note"][1].split("/")[0]
+    if "D" in d["note"]:
+        return d["note"][1].split("/")[0] + ("/nested" if d["mfd"] < 0 and "/frame" in d["note"][1] else "")
     return "clean-host"
 
 
@@ -586,30 +861,62 @@ def shrink(req):
 
 def generate(seed, tier):
     r = rng(seed, FAMILY)
-    hosts = [(2, h) for h in HOSTS2] + [(1, h) for h in HOSTS1]
+    hosts = [(2, h, 1) for h in HOSTS2] + [(1, h, 1) for h in HOSTS1]
+    n_hand = len(hosts)
     n_rand = 12 if tier == "quick" else 200
     for _ in range(n_rand):
         dia = 2 if r.random() < 0.7 else 1
         doc = pd.rand_doc(r, dia, size=r.choice([2, 3, 4]), depth=r.choice([1, 2]))
         # hosts use plain presentations (the planted text must be the only irregularity)
-        hosts.append((dia, doc))
-    budget = 2500 if tier == "quick" else 10 ** 9
-    for hi_, (dia, doc) in enumerate(hosts):
+        hosts.append((dia, doc, 1))
+    # hosts whose save frames NEST (max_frame_depth = -1): the classes planted at every depth
+    nested = [(2, h, -1) for h in NESTED2] + [(1, h, -1) for h in NESTED1]
+    for _ in range(4 if tier == "quick" else 60):
+        dia = 2 if r.random() < 0.7 else 1
+        doc = pd.rand_doc(r, dia, size=r.choice([3, 4]), depth=1, nest=2)
+        if pd.frame_depth(doc) >= 2:
+            nested.append((dia, doc, -1))
+    n_first_nested = len(hosts)
+    hosts += nested
+    for hi_, (dia, doc, mfd) in enumerate(hosts):
+        is_nested = hi_ >= n_first_nested
+        hand = hi_ < n_hand or (is_nested and hi_ < n_first_nested + len(NESTED2) + len(NESTED1))
         for style in ("lines", "min"):
-            yield host_request(doc, dia, r, style)
-        cases = list(plant_container_level(doc, dia, r)) + list(plant_document_level(doc, dia, r)) + list(plant_eof(doc, dia, r))
-        if hi_ >= len(HOSTS2) + len(HOSTS1) and tier == "quick":
+            yield host_request(doc, dia, r, style, mfd)
+        cases = list(plant_container_level(doc, dia, r))
+        if is_nested:
+            # (the frame classes of plant_document_level presuppose that frames do not nest)
+            cases = [c for c in cases if "/frame/" in c[0]]
+        else:
+            cases += list(plant_document_level(doc, dia, r)) + list(plant_eof(doc, dia, r))
+        if not hand and tier == "quick":
             r.shuffle(cases)
             cases = cases[:60]
+        elif is_nested and tier == "quick":
+            r.shuffle(cases)
+            cases = cases[:120]
+        n_die = {}
         for (label, planted, result, code, opts, alt) in cases:
             if label.startswith("skip") or not applicable(label, doc, opts):
                 continue
-            for style in (("lines", "min") if hi_ < len(HOSTS2) + len(HOSTS1) else ("lines",)):
-                if style == "min" and (label.startswith(("missing_endquote", "overlength", "unclosed_text", "eof_unclosed")) or "text_key" in label):
+            for style in (("lines", "min") if (hand and not is_nested) else ("lines",)):
+                if style == "min" and (label.startswith(("missing_endquote", "overlength", "unclosed_text", "eof_unclosed", "defect_in_comment", "defects_in_comment", "multi_in_text")) or "text_key" in label):
                     continue
-                rq = case_request(label, planted, result, code, opts, alt, dia, r, style)
+                rq = case_request(label, planted, result, code, opts, alt, dia, r, style, mfd)
                 if rq is not None:
                     yield rq
+            # the same defect under the abort-on-error handler, with the content in front of the defect
+            cls = label.split("/")[0]
+            if "die" in opts and (tier != "quick" or n_die.get(cls, 0) < (8 if hand else 2)):
+                rq = die_request(label, planted, opts["die"], code, opts, dia, r, mfd)
+                if rq is not None:
+                    n_die[cls] = n_die.get(cls, 0) + 1
+                    yield rq
+        # two defects in different elements of one container
+        for (label, planted, result, codes) in plant_pairs(doc, dia, r, (60 if hand else 15) if tier == "quick" else 400):
+            rq = pair_request(label, planted, result, codes, dia, r, mfd)
+            if rq is not None:
+                yield rq
     for dia in (2, 1):
         for (label, text, doc, lines, L) in boundary_cases(dia):
             if dia == 1 and any(ord(c) > 126 for c in text):
